@@ -105,7 +105,7 @@ def credMatches (d : Desc) (c : Cred) : Bool :=
     | 'e' => true
     | 'c' => !isNum v && v == d.val
     | 'p' => !isNum v && (v.toList.take d.val.length == d.val.toList)
-    | 'm' => match v.toNat?, d.val.toNat? with
+    | 'm' | 'q' => match v.toNat?, d.val.toNat? with
         | some x, some m => x ≥ m
         | _, _ => false
     | _ => false          -- 'n': constraints without `fields` match nothing (filterConstraints: applicable stays false)
@@ -135,7 +135,11 @@ def pairsOf (cse : Case) (sol : List String) : List String :=
   sortStrings (sol.flatMap fun d =>
     match cse.descs.find? (·.id == d) with
     | none => []
-    | some dd => (cse.creds.filter (credMatches dd)).map fun c => s!"{d}:{c.id}")
+    | some dd => (cse.creds.filter (credMatches dd)).map fun c =>
+        -- what the presentation shows for the constrained attribute: a predicate descriptor only gets `true`
+        let shown := if dd.kind == 'q' then "true"
+          else ((c.attrs.find? (·.1 == dd.attr)).map (·.2)).getD "absent"
+        s!"{d}:{c.id}[{shown}]")
 
 def handle (input : String) : String :=
   match parseCase input with
@@ -177,13 +181,25 @@ def oracle (input implOut : String) : String :=
           if solvable then "HOLDER-MISSED-A-SOLUTION" else implOut
         else if h.startsWith "vp " then
           let pairs := ((String.ofList (h.toList.drop 3)).splitOn ",").filter (· != "")
-          let parsed := pairs.filterMap fun p => match p.splitOn ":" with | [d, c] => some (d, c) | _ => none
+          let parsed := pairs.filterMap fun p => match p.splitOn ":" with
+            | [d, c] => match c.splitOn "[" with
+              | [cid, sh] => some (d, cid, String.ofList (sh.toList.takeWhile (· != ']')))
+              | _ => none
+            | _ => none
           let sol := (parsed.map (·.1)).eraseDups
-          let badPair := parsed.any fun (d, c) =>
+          let badPair := parsed.any fun (d, c, _) =>
             match cse.descs.find? (·.id == d), cse.creds.find? (·.id == c) with
             | some dd, some cc => !credMatches dd cc
             | _, _ => true
+          -- the credential the descriptor map points to must show the issued value, or only `true` under a predicate
+          let badShown := parsed.any fun (d, c, sh) =>
+            match cse.descs.find? (·.id == d), cse.creds.find? (·.id == c) with
+            | some dd, some cc =>
+              if dd.kind == 'q' then sh != "true"
+              else sh != ((cc.attrs.find? (·.1 == dd.attr)).map (·.2)).getD "absent"
+            | _, _ => true
           if badPair then "NON-MATCHING-CREDENTIAL-INCLUDED"
+          else if badShown then "DESCRIPTOR-MAPPED-TO-WRONG-CREDENTIAL-VARIANT"
           else if !req.sat sol then "HOLDER-SOLUTION-VIOLATES-REQUIREMENTS"
           else if v != "ok " ++ ",".intercalate (sortStrings sol) then "VERIFIER-DISAGREES"
           else implOut
